@@ -97,6 +97,7 @@ class C01(PipelineCheck):
         elif mux_failed and plain_failed:
             p['both_failed'] += 1
         out.digest = '|'.join(dig)
+        out.states = tuple(ctx.extra.get('states', ()))
         ops = ops_in(P)
         inter = interleaving_degree(events)
         out.nontrivial = len(values) >= 2 and inter >= 2 and len(P) >= 2 and not mux_failed
